@@ -240,7 +240,7 @@ fn local_engine(rep: &Report, seed: u64, tier: Tier) {
         }
     }
     // (b) random range lists, random fragmentation + Pending, incl. ranges past EOF.
-    let cases = tier.pick(150_000, 2_000_000);
+    let cases = tier.pick(150_000, 10_000_000);
     let out = par_map(cases / 500, crate::util::ncpu(), |b| {
         let mut v = Vec::new();
         let mut n = 0u64;
@@ -513,7 +513,7 @@ fn http_case(c: &HttpCase) -> Result<(usize, usize), String> {
 fn http_engine(rep: &Report, seed: u64, tier: Tier) {
     let mut cases: Vec<HttpCase> = Vec::new();
     // E1: single range, cut after every offset on the first attempt (then full), budgets 0..3
-    for len in (1..=tier.pick(10, 16)).chain([64usize]) {
+    for len in (1..=tier.pick(10, 32)).chain([64usize]) {
         for k in 0..=len {
             for budget in 0..=3u32 {
                 cases.push(HttpCase { file_len: 200, ranges: vec![(20, len)], plan: vec![Act::Cut(k)], budget });
@@ -540,7 +540,7 @@ fn http_engine(rep: &Report, seed: u64, tier: Tier) {
     }
     // E4: random range lists with random plans
     let mut rng = Rng::new(seed).fork(0x0808);
-    for _ in 0..tier.pick(6000, 60_000) {
+    for _ in 0..tier.pick(6000, 300_000) {
         let flen = rng.urange(100, 2000);
         let shape = match rng.below(5) {
             0 => RangeShape::Adjacent,
